@@ -120,7 +120,18 @@ func deepCastRecursive(val Value, typ ast.Type, span errors.Span, allowCasts boo
 			}
 			return NewValueOption(innerCast), nil
 		}
-		return NewValueOption(&val), nil
+
+		// `null` becomes the empty option
+		if val.Kind() == NullValueKind {
+			return NewNoneOption(), nil
+		}
+
+		// any other value is admitted as `Some` of the inner type, if it conforms to it
+		innerCast, i := deepCastRecursive(val, typ.(ast.OptionType).Inner, span, allowCasts, fieldURI)
+		if i != nil {
+			return nil, i
+		}
+		return NewValueOption(innerCast), nil
 	}
 
 	switch val.Kind() {
